@@ -2,6 +2,7 @@ package verif
 
 import (
 	"fmt"
+	"github.com/xtaci/smux"
 	"time"
 )
 
@@ -226,7 +227,15 @@ func scenarioC02(r *Run) {
 	// Phase 1: free interleaving (and benign faults). Progress is judged by the
 	// outcome: with nothing enabled and nothing happening for 60 simulated
 	// seconds while a non-paused connection is incomplete, it is stuck.
+	// in one run of four (never together with the write-stall fault) the applications connect at the same
+	// instant, and every lock operation of client and server is a seeded scheduling point
+	if !stallFault && c.Chance(1, 4, "open-together") {
+		cs.Together = true
+		r.YieldsOn("yield-seed")
+		r.Count("connections_opened_together")
+	}
 	out := r.Drive(pol, goal, extra, 60*time.Second, 30*time.Minute)
+	r.YieldsOff()
 	if out == Aborted {
 		return
 	}
@@ -237,7 +246,9 @@ func scenarioC02(r *Run) {
 				waiting++
 			}
 		}
-		sig := fmt.Sprintf("carrier=%s stall_reply_before_release=%v", carrierClass(carrier), r.Stats["stall_reply_before_release"] > 0)
+		// diagnosis: did the multiplexer drop a first inbound frame of a stream it had not registered yet
+		// (probe in the scratch copy of smux, see patch_smux.py)? That, and only that, is the listed finding.
+		sig := fmt.Sprintf("carrier=%s stall_reply_before_release=%v early_first_frame_dropped=%v", carrierClass(carrier), r.Stats["stall_reply_before_release"] > 0, smux.SimEarlyFirstFrames > 0)
 		r.FailSig("progress", sig, "%s: %d of %d concurrent connections on one session did not complete while the others were open: %v", out, waiting, k, cs.Describe())
 		return
 	}
